@@ -69,8 +69,8 @@ TEXT = {
          "Operation sequences on FastRational around the word boundaries; exactness, canonical form, fits-word => word valid, equal values => equal hash/representation.",
          "Decimal-to-limb conversion by the harness is trusted; certificates are verified, not trusted.", "6/C15"),
  "C22": ("model_checking", "TSolver.tla guards with the kernel as consistency oracle (model evaluation / Fourier-Motzkin + congruence-closure refutation); behaviours of MC_TSolver replayed on the real solvers",
-         "declare/assert/backtrack/check sequences on LA, EUF and difference-logic solvers through TSolverHandler; verdict memo keyed by the literal set.",
-         "Arrays and UF+LA combinations are not driven (they need the preprocessing of the theory); see DESIGN.", "6/C22"),
+         "declare/assert/backtrack/check sequences on LA, EUF, array and difference-logic solvers through TSolverHandler; verdict memo keyed by the literal set.",
+         "UF+LA combinations are not driven (they need the purification of the theory). For arrays only inconsistency verdicts and explanations are judged: read-over-store instances come from preprocessing, so a raw SAT of the array solver is not a claim; see DESIGN.", "6/C22"),
  "C24": ("model_checking", "SharedPool.tla (all interleavings of 2 threads under three disciplines) + concurrent executions compared with solo runs by Script_Trace, ThreadSanitizer observed",
          "2-8 instances in concurrent threads, coefficients beyond 2^64; answers must equal the solo answers; TSan reports are violations.",
          "The data-race clause is observed by TSan on the executions, not modelled.", "6/C24"),
